@@ -10,6 +10,8 @@ Tie C.  Families (each case carries everything needed to rebuild it; `replay` re
   strategy  : model(x*) in eval mode (KISS-GP, WISKI fantasy, SGPR, RFF) under the settings of the property vs the
               C01 Coq model (run_posterior) on the dense blocks of the SAME approximate kernel
   sgpr      : Nystrom matrix, textbook SGPR predictive equations, Titsias bound vs run_sgpr
+  rff       : RFFKernel dense output on every branch (x1 is x2 with 2D < n / 2D >= n, x1 != x2, diag) vs the documented
+              (1/D) sum_j cos(w_j . (x - x')) with the kernel's own frequencies (float oracle, TESTED formula)
   converge  : KISS-GP kernel -> base kernel under grid refinement (TESTED only)"""
 import itertools
 import json
@@ -537,6 +539,8 @@ def gen_strategy(rng, tier):
                      scale=rng.random() < 0.6)
             if model in ("kiss", "wiski"):
                 c["sizes"] = [rng.randint(5, 12) for _ in range(d)]
+            if model in ("sgpr", "kiss", "rff"):
+                c["hetero"] = (j % 2 == 1)
             if model == "sgpr":
                 c["Z"] = separated(rng, rng.randint(2, 5), d, 0.0, 1.0, sep=0.1)
             if model == "rff":
@@ -554,8 +558,13 @@ def strat_build(c):
     rng = random.Random(c["hseed"])
     d = c["d"]
     X, Xs, y = torch.tensor(c["X"]), torch.tensor(c["Xs"]), torch.tensor(c["y"])
-    lik = gpytorch.likelihoods.GaussianLikelihood()
-    lik.noise = dy(rng, 0.05, 0.6)
+    if c.get("hetero"):
+        # heteroskedastic fixed noise: D = diag(noise_i) (the Woodbury cache and the Titsias term divide per point)
+        lik = gpytorch.likelihoods.FixedNoiseGaussianLikelihood(
+            noise=torch.tensor([dy(rng, 0.05, 0.6) for _ in range(len(c["X"]))]), learn_additional_noise=False)
+    else:
+        lik = gpytorch.likelihoods.GaussianLikelihood()
+        lik.noise = dy(rng, 0.05, 0.6)
     if c["mean"] == "zero":
         mean = gpytorch.means.ZeroMean()
     else:
@@ -612,10 +621,11 @@ def strat_blocks(c):
         # SGPR: the prior covariance of the test points is the base kernel's (exact_prediction_strategies.py:836-846)
         Tss = base(Xs).to_dense() if c["model"] == "sgpr" else kern(Xs).to_dense()
         mx, ms = model.mean_module(Xa), model.mean_module(Xs)
-        noise = lik.noise.item()
+        noise = lik.noise.detach().reshape(-1).tolist()
     n = len(ya)
+    noise = noise * n if len(noise) == 1 else noise
     KJ = torch.cat([torch.cat([Kxx, Ksx.t()], 1), torch.cat([Ksx, Tss], 1)], 0).tolist()
-    S = [[noise if i == j else 0.0 for j in range(n)] for i in range(n)]
+    S = [[noise[i] if i == j else 0.0 for j in range(n)] for i in range(n)]
     return KJ, torch.cat([mx, ms]).tolist(), S, ya
 
 
@@ -655,7 +665,8 @@ def check_strategy(out, cases, verbose=False):
         rd = C.Reader(res[keyf(c)])
         path = "+".join(c["flags"]) or "default"
         desc = dict(family="strategy", model=c["model"], d=c["d"], n=c["n"], t=t, flags=c["flags"],
-                    hseed=c["hseed"], extra=c.get("sizes") or c.get("D") or len(c.get("Z", [])))
+                    hseed=c["hseed"], extra=c.get("sizes") or c.get("D") or len(c.get("Z", [])),
+                    hetero=bool(c.get("hetero")))
         if rd.int() != 1:
             out.case(desc, False, label="strategy:%s:%s" % (c["model"], path))
             out.fail("strategy:model-singular", "model could not invert the dense train covariance", c, no_input=False)
@@ -697,12 +708,14 @@ def gen_sgpr(rng, tier):
                           Z=separated(rng, rng.randint(2, 3 if tier == "quick" else 5), d, 0.0, 1.0, sep=0.2),
                           hseed=rng.randint(0, 10 ** 9),
                           mean=rng.choice(["zero", "constant"]), scale=rng.random() < 0.6, model="sgpr",
+                          hetero=(j % 2 == 0),
                           flags=["no_sgpr_correction"] + (["cg"] if j % 4 == 3 else [])))
     return cases
 
 
 def check_sgpr(out, cases, verbose=False):
     terms, impl = [], []
+    Qcorr_all, Qdiag_all, Kxd_all = {}, {}, {}
     for c in cases:
         model, lik, base, X, Xs, y = strat_build(c)
         Z = torch.tensor(c["Z"])
@@ -718,19 +731,27 @@ def check_sgpr(out, cases, verbose=False):
             Qtrain = kern(X).to_dense().tolist()
             Kzz, Kxz, Ksz = base(Z).to_dense().tolist(), base(X, Z).to_dense().tolist(), base(Xs, Z).to_dense().tolist()
             Kss, Kxd = base(Xs).to_dense().tolist(), base(X, diag=True).tolist()
-            noise = lik.noise.item()
+            noise = lik.noise.detach().reshape(-1).tolist()
+            noise = noise * c["n"] if len(noise) == 1 else noise
             r = (y - model.mean_module(X)).tolist()
             ms = model.mean_module(Xs).tolist()
         mean, cov, _ = strat_outputs(c)
         impl.append((Qtrain, obj, mean, cov, noise))
+        m2, _, _, X2, _, _ = strat_build(c)
+        m2.eval()
+        with torch.no_grad():
+            Qcorr_all[id(c)] = m2.covar_module(X2).to_dense().tolist()
+            Qdiag_all[id(c)] = m2.covar_module(X2, diag=True).tolist()
+        Kxd_all[id(c)] = Kxd
         terms.append("((%d%%nat, %d%%nat, %d%%nat), %s, %s, %s, %s, %s, %s, %s, %s)" % (
             c["n"], c["t"], len(c["Z"]), C.qc_mat(Kzz), C.qc_mat(Kxz), C.qc_mat(Ksz), C.qc_mat(Kss), C.qc_vec(Kxd),
-            C.qc_vec([noise] * c["n"]), C.qc_vec(r), C.qc_vec(ms)))
+            C.qc_vec(noise), C.qc_vec(r), C.qc_vec(ms)))
     res = C.coq_run_cases("C09_sgpr", IMPORTS, "Definition run := run_sgpr.", terms, shard=1)
     for c, (Qtrain, obj, mean, cov, noise), r in zip(cases, impl, res):
         n, t = c["n"], c["t"]
-        out.case(dict(family="sgpr", d=c["d"], n=n, t=t, m=len(c["Z"]), flags=c["flags"], hseed=c["hseed"]), n >= 2,
-                 label="sgpr:nystrom+textbook+bound")
+        out.case(dict(family="sgpr", d=c["d"], n=n, t=t, m=len(c["Z"]), flags=c["flags"], hseed=c["hseed"],
+                      hetero=bool(c.get("hetero"))), n >= 2,
+                 label="sgpr:nystrom+textbook+bound:%s" % ("fixed-noise" if c.get("hetero") else "homoskedastic"))
         rd = C.Reader(r)
         if rd.int() != 1:
             out.fail("sgpr:model-singular", "model could not invert K_zz / Q + s2 I", c, no_input=False)
@@ -745,6 +766,16 @@ def check_sgpr(out, cases, verbose=False):
         if not maxdiff(Qtrain, Q) <= TOL_DENSE:
             out.fail("sgpr:nystrom", "InducingPointKernel (training mode) differs from K_xz K_zz^-1 K_zx", c, impl=Qtrain,
                      model=[[float(v) for v in row] for row in Q])
+        # eval mode with sgpr_diagonal_correction on (the default): the represented train matrix is
+        # Q + diag(max(K_ii - Q_ii, 0)); cross blocks carry no correction
+        Qf = np.array([[float(v) for v in row] for row in Q])
+        corr = np.maximum(np.array(Kxd_all[id(c)]) - np.diag(Qf), 0.0)
+        if not maxdiff(Qcorr_all[id(c)], (Qf + np.diag(corr)).tolist()) <= TOL_DENSE:
+            out.fail("sgpr:diagonal-correction", "InducingPointKernel (eval mode, sgpr_diagonal_correction on) differs from "
+                     "Q + diag(K - Q)", c, impl=Qcorr_all[id(c)], model=(Qf + np.diag(corr)).tolist())
+        if not maxdiff(Qdiag_all[id(c)], (np.diag(Qf) + corr).tolist()) <= TOL_DENSE:
+            out.fail("sgpr:diagonal-correction:diag", "InducingPointKernel(diag=True) (eval mode, correction on) differs "
+                     "from diag(Q) + diag(K - Q)", c, impl=Qdiag_all[id(c)], model=(np.diag(Qf) + corr).tolist())
         if not maxdiff(mean, tm) <= a:
             out.fail("sgpr:textbook-mean", "SGPR predictive mean differs from the textbook equation", c, impl=mean,
                      model=[float(v) for v in tm])
@@ -756,7 +787,59 @@ def check_sgpr(out, cases, verbose=False):
             print("impl objective", obj, "collapsed bound / n", bound)
         if not abs(obj - bound) <= a * (1 + abs(bound)):
             out.fail("sgpr:titsias-bound", "ExactMarginalLogLikelihood of the SGPR model differs from the collapsed bound "
-                     "(log N(y; m, Q + s2 I) - tr(K - Q)/(2 s2))/n", c, impl=obj, model=bound)
+                     "(log N(y; m, Q + D) - 1/2 sum_i (K_ii - Q_ii)/D_ii)/n", c, impl=obj, model=bound)
+
+
+# =========================================================================== RFF kernel formula (float oracle)
+
+def gen_rff(rng, tier):
+    cases = []
+    for j in range(12 if tier == "quick" else 80):
+        d, D = rng.randint(1, 3), rng.randint(1, 6)
+        # n straddles 2D so that both the LowRankRoot (2D < n) and the Root branch are taken
+        n = rng.choice([1, 2, 2 * D, 2 * D + 1, 2 * D + 2]) if j % 2 == 0 else rng.randint(1, 6)
+        n = min(n, 9)
+        cases.append(dict(family="rff", d=d, D=D, n=n, m=rng.randint(1, 4), hseed=rng.randint(0, 10 ** 9),
+                          ls=[dy(rng, 0.3, 2.0) for _ in range(d)], ard=rng.random() < 0.6,
+                          X1=[[dy(rng, -2, 2) for _ in range(d)] for _ in range(n)],
+                          X2=[[dy(rng, -2, 2) for _ in range(d)] for _ in range(rng.randint(1, 4))],
+                          given_dims=rng.random() < 0.5))
+    return cases
+
+
+def check_rff(out, cases, verbose=False):
+    for c in cases:
+        d, D = c["d"], c["D"]
+        X1, X2 = torch.tensor(c["X1"]), torch.tensor(c["X2"])
+        torch.manual_seed(c["hseed"] % (2 ** 31))
+        kw = dict(num_dims=d) if c["given_dims"] else {}
+        kern = K.RFFKernel(num_samples=D, ard_num_dims=d if c["ard"] else None, **kw)
+        kern.lengthscale = torch.tensor(c["ls"] if c["ard"] else c["ls"][0])
+        out.case(dict(family="rff", d=d, D=D, n=c["n"], ard=c["ard"], hseed=c["hseed"]), True,
+                 label="rff:%s" % ("lowrank" if 2 * D < c["n"] else "root"))
+        try:
+            with torch.no_grad():
+                same = kern(X1).to_dense().numpy()
+                same2 = kern(X1, X1.clone()).to_dense().numpy()
+                cross = kern(X1, X2).to_dense().numpy()
+                dg = kern(X1, diag=True).numpy()
+                W = (kern.randn_weights / kern.lengthscale.transpose(-1, -2)).numpy()      # d x D
+        except Exception as e:
+            out.fail("rff-kernel:exception:%s" % type(e).__name__, "RFFKernel raised %r" % e, c)
+            continue
+
+        def oracle(A, B):
+            diff = np.asarray(A)[:, None, :] - np.asarray(B)[None, :, :]
+            return np.cos(diff @ W).mean(-1)
+        for name, got, want in (("same", same, oracle(c["X1"], c["X1"])), ("same-by-value", same2, oracle(c["X1"], c["X1"])),
+                                ("cross", cross, oracle(c["X1"], c["X2"])),
+                                ("diag", dg, np.diag(oracle(c["X1"], c["X1"])))):
+            dd = maxdiff(got, want)
+            if verbose:
+                print(name, "impl", got.tolist(), "\n     formula", want.tolist())
+            if not dd <= 1e-10:
+                out.fail("rff-kernel:%s" % name, "RFFKernel (%s branch) differs from (1/D) sum_j cos(w_j.(x-x')) by %.3g"
+                         % (name, dd), c, impl=got.tolist(), model=want.tolist())
 
 
 # =========================================================================== grid refinement (tested only)
@@ -792,7 +875,7 @@ def check_converge(out, cases, verbose=False):
 FAMILIES = {
     "multitask": (gen_multitask, check_multitask), "interp": (gen_interp, check_interp),
     "gridkernel": (gen_gridkernel, check_gridkernel), "kiss": (gen_kiss, check_kiss),
-    "strategy": (gen_strategy, check_strategy), "sgpr": (gen_sgpr, check_sgpr),
+    "strategy": (gen_strategy, check_strategy), "sgpr": (gen_sgpr, check_sgpr), "rff": (gen_rff, check_rff),
     "converge": (gen_converge, check_converge),
 }
 
@@ -805,7 +888,8 @@ def run(out, ctx):
                 "Toeplitz on/off; KISS-GP kernel d 1..2, ragged sizes, per-dim bounds and ARD lengthscales (so that "
                 "index-order errors are visible), fixed and data-dependent grids; strategies {KISS-GP, WISKI fantasy "
                 "depth 1..2, SGPR (inducing 2..5), RFF (features 2..6)} x settings {Cholesky/CG, fast_pred_var, "
-                "fast_pred_samples, sgpr_diagonal_correction, use_toeplitz}; non-trivial = tasks>=2 / n>=2 / "
+                "fast_pred_samples, sgpr_diagonal_correction, use_toeplitz}; SGPR kernel with the diagonal correction vs "
+                "Q + diag(K - Q); RFF kernel (features 1..6, d 1..3, n straddling 2D) on every branch; non-trivial = tasks>=2 / n>=2 / "
                 "asymmetric grid")
     out.extra["tolerances"] = {"explicit formulas": 1e-9, "dense/cholesky": TOL_DENSE,
                                "cg / lanczos / fast_pred_samples root / WISKI (jittered Cholesky of a rank-deficient "
@@ -820,8 +904,9 @@ def run(out, ctx):
     out.extra["family_wall_s"] = timing
     out.tested_not_proved = [
         "the KISS-GP kernel converges to the base kernel as the grid is refined (decreasing error sequence only)",
-        "WISKI fantasy_mean_cache / fantasy_covar_cache (Cholesky root of W^T D^-1 W) vs conditioning from scratch",
-        "RFF kernel Gram = (1/D) sum_j cos(w_j.(x-y)) is checked in float only",
+        "WISKI: numerics of the jittered Cholesky roots of W^T D^-1 W and of the inner cache, and the fast_pred_var "
+        "branch of fantasy_covar_cache (the algebra of fantasy mean / covariance caches is proved)",
+        "RFF kernel Gram = (1/D) sum_j cos(w_j.(x-y)) is checked in float only (family rff, every branch)",
         "agreement of torch/linear_operator numerics (Cholesky, CG, Lanczos) with exact algebra"]
 
 
